@@ -8,7 +8,7 @@ CaseResult runC13(const Case &c, RunCtx &ctx) {
     bool loadsFile = false;
     size_t refused = 0, frames = 0;
     {
-        Interp in(ctx);
+        Interp in(ctx, "C13");
         in.allowUndeclaredFrames = false;
         CountingListener L; in.L = &L;
         in.run(c);
